@@ -203,6 +203,20 @@ pub struct ConnObs {
     /// last time a datagram made `total_authed_packets` grow (needs `model_trace`)
     pub last_authed_rx_at: Option<u64>,
     pub last_tx_at: Option<u64>,
+    /// sizes of the datagrams sent above the MTU estimate of their time (MTU probes)
+    pub probe_sizes: std::collections::BTreeSet<usize>,
+    /// MTU estimate at the previous transmit (0 = none yet)
+    pub last_mtu: u16,
+    pub mtu_rises: u64,
+}
+
+/// Per node: what C13 lets the MTU estimate and probes be (set by scenarios that know the configuration).
+#[derive(Clone, Copy, Debug)]
+pub struct MtuRule {
+    /// configured initial_mtu: the estimate of a fresh path
+    pub initial: u16,
+    /// min(own MtuDiscoveryConfig::upper_bound, peer max_udp_payload_size): no probe may exceed it
+    pub probe_cap: usize,
 }
 
 pub struct NodeConn {
@@ -265,11 +279,17 @@ pub struct Sim {
     /// all genuine datagrams ever sent (for replays)
     pub history: Vec<Dgram>,
     pub keep_history: bool,
+    /// connection handle (of the sending node) of each history entry, None for endpoint-level datagrams
+    pub history_ch: Vec<Option<usize>>,
+    /// time each history entry was put on the wire
+    pub history_at: Vec<u64>,
+    cur_ch: Option<usize>,
     pub steps: u64,
     pub clock: SimClock,
     /// oracle switches
     pub check_amp: bool,
     pub check_mtu: bool,
+    pub mtu_rules: Option<[MtuRule; 2]>,
     /// datagrams delivered per node
     pub delivered: [u64; 2],
     pub dropped: u64,
@@ -366,10 +386,14 @@ impl Sim {
             consecutive_drops: [0; 2],
             history: Vec::new(),
             keep_history: false,
+            history_ch: Vec::new(),
+            history_at: Vec::new(),
+            cur_ch: None,
             steps: 0,
             clock,
             check_amp: true,
             check_mtu: true,
+            mtu_rules: None,
             delivered: [0; 2],
             dropped: 0,
             faults: BTreeMap::new(),
@@ -429,6 +453,8 @@ impl Sim {
         };
         if self.keep_history && self.history.len() < 4000 {
             self.history.push(d.clone());
+            self.history_ch.push(self.cur_ch);
+            self.history_at.push(self.now);
         }
         if d.data.len() > self.net.path_mtu {
             *self.faults.entry("mtu-drop").or_default() += 1;
@@ -504,13 +530,14 @@ impl Sim {
         let from = self.nodes[node].addr;
         let seg = seg.unwrap_or(size.max(1));
         let mut off = 0;
+        self.cur_ch = ch;
         while off < size {
             let end = (off + seg).min(size);
             *self.nodes[node].sent_to.entry(dst).or_default() += (end - off) as u64;
             self.send_wire(node, from, dst, ecn, buf[off..end].to_vec());
             off = end;
         }
-        let _ = ch;
+        self.cur_ch = None;
     }
 
     /// Deliver every due datagram addressed to `node`.
@@ -907,6 +934,21 @@ impl Sim {
             self.nodes[node].conns.get_mut(&ch).unwrap().obs.tx_after_drained += 1;
             self.fail("output-after-drained", format!("node {node} conn {ch} transmitted {} bytes after it was drained", t.size));
         }
+        // C13: the estimate rises only to the size of a probe this connection sent (and, to be acknowledged, the
+        // network delivered); a fresh path starts at initial_mtu
+        if let Some(rules) = self.mtu_rules {
+            let cur = before.path.current_mtu;
+            let obs = &mut self.nodes[node].conns.get_mut(&ch).unwrap().obs;
+            let last = obs.last_mtu;
+            obs.last_mtu = cur;
+            if last != 0 && cur > last {
+                obs.mtu_rises += 1;
+                if cur != rules[node].initial && !obs.probe_sizes.contains(&(cur as usize)) {
+                    let ps = obs.probe_sizes.clone();
+                    self.fail("mtu-rose-without-probe", format!("node {node} conn {ch}: MTU estimate rose {last} -> {cur} but no probe of {cur} bytes was ever sent (probes sent: {ps:?}, initial_mtu {})", rules[node].initial));
+                }
+            }
+        }
         // C13: every datagram <= current MTU except a single probe
         if self.check_mtu {
             let mtu = before.path.current_mtu as usize;
@@ -923,7 +965,14 @@ impl Sim {
                 self.fail("datagram-exceeds-mtu", format!("node {node} conn {ch}: {oversize} of {n} datagrams (segment {seg}, total {}) exceed current_mtu {mtu}", t.size));
             }
             if oversize == 1 {
-                self.nodes[node].conns.get_mut(&ch).unwrap().obs.oversize_sent += 1;
+                let obs = &mut self.nodes[node].conns.get_mut(&ch).unwrap().obs;
+                obs.oversize_sent += 1;
+                obs.probe_sizes.insert(t.size);
+                if let Some(rules) = self.mtu_rules {
+                    if t.size > rules[node].probe_cap {
+                        self.fail("mtu-probe-exceeds-bound", format!("node {node} conn {ch}: probe of {} bytes > min(upper_bound, peer max_udp_payload_size) = {}", t.size, rules[node].probe_cap));
+                    }
+                }
             }
             if t.segment_size.is_some() && n > self.nodes[node].max_datagrams {
                 self.fail("too-many-segments", format!("node {node}: {n} segments > max_datagrams"));
